@@ -146,6 +146,11 @@ def pyIter : PVal → PyM (List PVal)
   | .dict kvs => pure (kvs.map fun kv => .str kv.1)
   | .str s => pure (s.map fun c => .str [c])
   | .html s => pure (s.map fun c => .html [c])
+  | .obj _ fs =>
+    -- a `UserList` instance (TagList) iterates over its `data`
+    match fs.find? (fun f => f.1 == "data") with
+    | some (_, .list xs) => pure xs
+    | _ => throw .typeError
   | _ => throw .typeError
 
 def pyJoin (sep it : PVal) : PyM PVal :=
@@ -363,5 +368,77 @@ def pyGt (a b : PVal) : PyM PVal :=
     | some (.int x), some (.int y) => pure (.bool (decide (x > y)))
     | _, _ => throw .unsupported
   | _, _ => throw .unsupported
+
+/-! ### instances of the library's classes -/
+
+/-- class name used for run-time method dispatch -/
+def pyClassOf : PVal → String
+  | .obj c _ => c
+  | .html _ => "HTML"
+  | .str _ => "str"
+  | .list _ => "list"
+  | .tuple _ => "tuple"
+  | .dict _ => "dict"
+  | .int _ => "int"
+  | .bool _ => "bool"
+  | .float _ => "float"
+  | .none => "NoneType"
+
+/-- `x._repr_html_()` for `HTML` and for instances of user classes, whose method returns the text recorded under
+    `_repr_html_` -/
+def pyReprHtml : PVal → PyM PVal
+  | .html s => pure (.str s)
+  | .obj _ fs => match fs.find? (fun f => f.1 == "_repr_html_") with
+    | some (_, .str s) => pure (.str s)
+    | some _ => throw .unsupported
+    | Option.none => throw .attributeError
+  | _ => throw .attributeError
+
+/-- `enumerate(x)` as a list of pairs -/
+def pyEnumerate (x : PVal) : PyM PVal := do
+  let xs ← pyIter x
+  pure (.list (((List.range xs.length).zip xs).map fun p => PVal.tuple [PVal.int (p.1 : Nat), p.2]))
+
+/-- `reversed(x)` as a list -/
+def pyReversed (x : PVal) : PyM PVal := do pure (.list (← pyIter x).reverse)
+
+/-- `range(n)` as a list -/
+def pyRange : PVal → PyM PVal
+  | .int n => pure (.list ((List.range n.toNat).map fun (i : Nat) => PVal.int (i : Int)))
+  | _ => throw .typeError
+
+/-- `list(x)` -/
+def pyList (x : PVal) : PyM PVal := do pure (.list (← pyIter x))
+
+/-- `tuple(x)` -/
+def pyTuple (x : PVal) : PyM PVal := do pure (.tuple (← pyIter x))
+
+/-- `d.pop(k)` as a statement: the new dict (KeyError when absent) -/
+def pyDictPop (d k : PVal) : PyM PVal :=
+  match d, k with
+  | .dict kvs, .str key => if (dictGet? key kvs).isSome then pure (.dict (dictDel key kvs)) else throw .keyError
+  | _, _ => throw .unsupported
+
+/-- `s.split()`: maximal runs of non-whitespace characters (`str.isspace` per character is supplied by `G`) -/
+def splitWs (sp : Char → Bool) : Str → Str → List Str
+  | [], cur => if cur.isEmpty then [] else [cur]
+  | c :: r, cur => if sp c then (if cur.isEmpty then splitWs sp r [] else cur :: splitWs sp r []) else splitWs sp r (cur ++ [c])
+
+def pySplit (G : Globals) : PVal → PyM PVal
+  | .str s => pure (.list ((splitWs G.isSpace s []).map .str))
+  | .html s => pure (.list ((splitWs G.isSpace s []).map .str))    -- UserString.split returns plain `str` items
+  | _ => throw .attributeError
+
+/-- `s.strip()` -/
+def pyStrip (G : Globals) : PVal → PyM PVal
+  | .str s => pure (.str ((s.dropWhile G.isSpace).reverse.dropWhile G.isSpace).reverse)
+  | .html s => pure (.html ((s.dropWhile G.isSpace).reverse.dropWhile G.isSpace).reverse)
+  | _ => throw .attributeError
+
+/-- `s.lower()` -/
+def pyLower (G : Globals) : PVal → PyM PVal
+  | .str s => pure (.str (G.lower s))
+  | .html s => pure (.html (G.lower s))
+  | _ => throw .attributeError
 
 end HtmlVerif.Py
